@@ -106,7 +106,8 @@ class RefDict(ImplDict):
 
     def set_item(self, name, value):
         model = self.owner.model
-        if self.owner is not model and name not in self:
+        if (self.owner is not model and not self.owner.is_dynamic()
+                and name not in self):
             if name in model.global_refs:   # name starts shadowing a global ref
                 model.clear_attr_referrers(model.global_refs[name])
         ImplDict.set_item(self, name,
